@@ -1,3 +1,164 @@
-From verif Require Import lib.Base model.C07.
-Example C07_stub : popCount 7 = 3.
-Proof. reflexivity. Qed.
+(* C07 — Maps are immutable dictionaries, including under hash collisions.
+   Property theorems only; every proof is [exact <lemma>].
+
+   The model (model/C07.v) is the hash array mapped trie of
+   pkg/persistent/hashmap: bitmap / array / collision nodes, the nil-key slot,
+   count and iteration.  All theorems are for every key type with
+   [KeyOK eqk hash]: eq is an equivalence, eq keys hash alike, hashes are
+   below 2^32 (Go's uint32).  No bound on the number of keys, on the length of
+   histories, or on how hashes collide. *)
+From Coq Require Import Permutation.
+From verif Require Import lib.Base model.C07 proofs.C07_swar proofs.C07_lists proofs.C07_node
+  proofs.C07_proofs.
+
+(* The SWAR popCount of hashmap.go counts the set bits of every uint32
+   ([rank u 32 0] = number of i < 32 with bit i of u set). *)
+Theorem C07_swar_popcount_correct : forall u, (u < 2 ^ 32)%N ->
+  popCount u = N.of_nat (rank u 32 0).
+Proof. exact popCount_correct. Qed.
+Print Assumptions C07_swar_popcount_correct.
+
+(* Invariant: the empty map is well formed, and Assoc / Dissoc of a well-formed
+   map never fail (fuel 8 suffices, no index is out of range) and give a
+   well-formed map.  [MapInv] = trie invariant of the root (hash prefixes along
+   the path, bitmap popcount = number of entries, array nodes count their
+   children and have at least nodeCap/4 of them, collision entries share the
+   hash and are pairwise non-eq, no empty non-root node, bitmap and array nodes
+   only on shifts <= 30 resp. 25) plus count = number of iterated pairs. *)
+Theorem C07_invariant : forall K V (eqk : K -> K -> bool) (hash : K -> N), KeyOK eqk hash ->
+  MapInv K V eqk hash empty
+  /\ (forall m ko v, MapInv K V eqk hash m ->
+        exists m', Assoc K V eqk hash m ko v = Some m' /\ MapInv K V eqk hash m')
+  /\ (forall m ko, MapInv K V eqk hash m ->
+        exists m', Dissoc K V eqk hash m ko = Some m' /\ MapInv K V eqk hash m').
+Proof. exact (fun K V => @invariant_f K V). Qed.
+Print Assumptions C07_invariant.
+
+(* Lookup after insertion / replacement. *)
+Theorem C07_find_assoc : forall K V (eqk : K -> K -> bool) (hash : K -> N), KeyOK eqk hash ->
+  forall m ko v ko', MapInv K V eqk hash m ->
+  exists m', Assoc K V eqk hash m ko v = Some m' /\ MapInv K V eqk hash m' /\
+    Index K V eqk hash m' ko' =
+      if eqo eqk ko' ko then FRes (Some v) else Index K V eqk hash m ko'.
+Proof. exact (fun K V => @find_assoc_f K V). Qed.
+Print Assumptions C07_find_assoc.
+
+(* Lookup after deletion. *)
+Theorem C07_find_without : forall K V (eqk : K -> K -> bool) (hash : K -> N), KeyOK eqk hash ->
+  forall m ko ko', MapInv K V eqk hash m ->
+  exists m', Dissoc K V eqk hash m ko = Some m' /\ MapInv K V eqk hash m' /\
+    Index K V eqk hash m' ko' =
+      if eqo eqk ko' ko then FRes None else Index K V eqk hash m ko'.
+Proof. exact (fun K V => @find_without_f K V). Qed.
+Print Assumptions C07_find_without.
+
+(* The reported size is exact. *)
+Theorem C07_count_exact : forall K V (eqk : K -> K -> bool) (hash : K -> N),
+  forall m, MapInv K V eqk hash m -> Len m = Z.of_nat (length (Iter m)).
+Proof. exact (fun K V => @count_exact_f K V). Qed.
+Print Assumptions C07_count_exact.
+
+(* Iteration yields each entry exactly once: no key twice, and a key is
+   found exactly when it is iterated, with the iterated value. *)
+Theorem C07_iter_once : forall K V (eqk : K -> K -> bool) (hash : K -> N), KeyOK eqk hash ->
+  forall m, MapInv K V eqk hash m ->
+  NoDupK (eqo eqk) (Iter m)
+  /\ forall ko, Index K V eqk hash m ko = FRes (s_lookup (eqo eqk) ko (Iter m)).
+Proof. exact (fun K V => @iter_once_f K V). Qed.
+Print Assumptions C07_iter_once.
+
+(* ... and the iteration after an operation is a permutation of the
+   reference dictionary operation on the iteration before. *)
+Theorem C07_iter_assoc_perm : forall K V (eqk : K -> K -> bool) (hash : K -> N), KeyOK eqk hash ->
+  forall m ko v, MapInv K V eqk hash m ->
+  exists m', Assoc K V eqk hash m ko v = Some m' /\ MapInv K V eqk hash m'
+    /\ Permutation (Iter m') ((ko, v) :: s_remove (eqo eqk) ko (Iter m)).
+Proof. exact (fun K V => @inv_assoc_f K V). Qed.
+Print Assumptions C07_iter_assoc_perm.
+
+Theorem C07_iter_dissoc_perm : forall K V (eqk : K -> K -> bool) (hash : K -> N), KeyOK eqk hash ->
+  forall m ko, MapInv K V eqk hash m ->
+  exists m', Dissoc K V eqk hash m ko = Some m' /\ MapInv K V eqk hash m'
+    /\ Permutation (Iter m') (s_remove (eqo eqk) ko (Iter m)).
+Proof. exact (fun K V => @inv_dissoc_f K V). Qed.
+Print Assumptions C07_iter_dissoc_perm.
+
+(* Main theorem.  For every history of insertions, replacements and deletions
+   over a version store (any operation may start from any existing version,
+   nil key included), the model never fails, and every version agrees with
+   the reference dictionary: size, every lookup, and the iteration is a
+   duplicate-free permutation of the reference entries ([VSpec]). *)
+Theorem C07_history_refines_map : forall K V (eqk : K -> K -> bool) (hash : K -> N), KeyOK eqk hash ->
+  forall ops : list (op K V),
+  exists ms, m_run eqk hash [empty] ops = Some ms
+    /\ Forall2 (fun m s =>
+         Len m = Z.of_nat (length s)
+         /\ (forall ko, Index K V eqk hash m ko = FRes (s_lookup (eqo eqk) ko s))
+         /\ Permutation (Iter m) s
+         /\ NoDupK (eqo eqk) (Iter m)) ms (s_run eqk [[]] ops).
+Proof. exact (fun K V => @history_refines_f K V). Qed.
+Print Assumptions C07_history_refines_map.
+
+(* Earlier versions are never changed: whatever is run afterwards, version i
+   of the store is the value it was (values are immutable terms; together with
+   the previous theorem every observation of it stays what it was). *)
+Theorem C07_old_versions_unchanged : forall K V (eqk : K -> K -> bool) (hash : K -> N),
+  forall (ops : list (op K V)) ms ms', m_run eqk hash ms ops = Some ms' ->
+  forall i m, nth_error ms i = Some m -> nth_error ms' i = Some m.
+Proof. exact (fun K V => @old_versions_unchanged_f K V). Qed.
+Print Assumptions C07_old_versions_unchanged.
+
+(* Why fuel 8 is enough for createNode: two different uint32 hashes differ in
+   one of the chunks at shifts 0, 5, .., 30. *)
+Theorem C07_distinct_hashes_differ_in_a_chunk : forall h1 h2,
+  (h1 < 2 ^ 32)%N -> (h2 < 2 ^ 32)%N -> h1 <> h2 ->
+  exists l, (l < 7)%N /\ chunk (5 * l) h1 <> chunk (5 * l) h2.
+Proof. exact distinct_hashes_differ_in_a_chunk. Qed.
+Print Assumptions C07_distinct_hashes_differ_in_a_chunk.
+
+(* The oracle evaluated on the implementation's observations implies the
+   specification: every observed version (at creation and at every later
+   re-observation that differed) has the reference size, the reference lookup
+   results on the whole key universe, and an iteration without repeated keys,
+   of the reference length, all of whose pairs are reference entries. *)
+Theorem C07_oracle_sound : forall hs ops obs late, check_C07 hs ops obs late = true ->
+  Forall2 (VersionSpec hs) (s_run N.eqb [[]] ops) obs
+  /\ (forall i o, In (i, o) late ->
+        exists s, nth_error (s_run N.eqb [[]] ops) i = Some s /\ VersionSpec hs s o).
+Proof. exact check_C07_sound. Qed.
+Print Assumptions C07_oracle_sound.
+
+(* The key universe of the correspondence cases satisfies the hypotheses. *)
+Theorem C07_instance_keyok : forall hs, Forall (fun h => (h < 2 ^ 32)%N) hs ->
+  KeyOK N.eqb (hash_of hs).
+Proof. exact instance_keyok. Qed.
+Print Assumptions C07_instance_keyok.
+
+(* Non-vacuity: 20 keys with one full hash; then 40 keys spread over one
+   level-1 node below a shared 5-bit prefix: collision node, unpack at 16,
+   pack at 8, as computed by the model. *)
+Example C07_ex_collision :
+  let hs := repeat 7%N 20 in
+  let ops := map (fun i => OAssoc i (Some (N.of_nat i)) (N.of_nat i)) (seq 0 20) in
+  match m_run N.eqb (hash_of hs) [empty] ops with
+  | Some ms => map (fun m => Len m) ms = map Z.of_nat (seq 0 21)
+               /\ match root (last ms empty) with
+                  | Bitmap 128 [Child (Collision 7 kvs)] => length kvs = 20%nat
+                  | _ => False end
+  | None => False
+  end.
+Proof. vm_compute. split; reflexivity. Qed.
+
+Example C07_ex_unpack_pack :
+  let hs := map (fun i => (3 + 32 * N.of_nat i)%N) (seq 0 32) in
+  let ins := map (fun i => OAssoc i (Some (N.of_nat i)) 1%N) (seq 0 17) in
+  let del := map (fun i => ODissoc (17 + i) (Some (N.of_nat i))) (seq 0 10) in
+  match m_run N.eqb (hash_of hs) [empty] (ins ++ del) with
+  | Some ms =>
+    (match nth_error ms 16 with Some (mkMap 16 (Bitmap 8 [Child (Bitmap _ es)]) None) => length es = 16%nat | _ => False end)
+    /\ (match nth_error ms 17 with Some (mkMap 17 (Bitmap 8 [Child (Array 17 _)]) None) => True | _ => False end)
+    /\ (match nth_error ms 26 with Some (mkMap 8 (Bitmap 8 [Child (Array 8 _)]) None) => True | _ => False end)
+    /\ (match nth_error ms 27 with Some (mkMap 7 (Bitmap 8 [Child (Bitmap _ es)]) None) => length es = 7%nat | _ => False end)
+  | None => False
+  end.
+Proof. vm_compute. repeat split; reflexivity. Qed.
